@@ -224,20 +224,42 @@ structure DBP where
   deltas : Packed
   deriving Repr, DecidableEq
 
+/-- `encode`: a sequence with a single value has no deltas and records the width 1
+(`pack_with_bits(&[], 1)`), which keeps it apart from the empty sequence. -/
 def DBP.encode (vs : List Nat) : DBP :=
   match vs with
   | [] => ⟨0, pack []⟩
-  | v :: _ => ⟨v, pack (satDeltas vs)⟩
+  | v :: _ => ⟨v, if satDeltas vs = [] then packWithBits [] 1 else pack (satDeltas vs)⟩
 
-/-- `decode`: note the emptiness test `deltas.is_empty() && base == 0`. -/
+/-- `is_empty`: `deltas.is_empty() && base == 0 && deltas.bits_per_value() == 0` -/
+def DBP.isEmpty (d : DBP) : Bool := d.deltas.count = 0 && d.base = 0 && d.deltas.bits = 0
+
+/-- `decode` -/
 def DBP.decode (d : DBP) : Res (List Nat) :=
-  if d.deltas.count = 0 && d.base = 0 then .ok []
+  if d.isEmpty then .ok []
   else match d.deltas.unpack with
     | .ok ds => .ok (d.base :: wrapSums d.base ds)
     | .err => .err
     | .panic => .panic
 
 def DBP.len (d : DBP) : Nat :=
+  if d.isEmpty then 0 else d.deltas.count + 1
+
+/-- the code before the repair: a single `0` was encoded like the empty sequence and the
+emptiness test was `deltas.is_empty() && base == 0` (regression witness) -/
+def Old.DBP.encode (vs : List Nat) : DBP :=
+  match vs with
+  | [] => ⟨0, pack []⟩
+  | v :: _ => ⟨v, pack (satDeltas vs)⟩
+
+def Old.DBP.decode (d : DBP) : Res (List Nat) :=
+  if d.deltas.count = 0 && d.base = 0 then .ok []
+  else match d.deltas.unpack with
+    | .ok ds => .ok (d.base :: wrapSums d.base ds)
+    | .err => .err
+    | .panic => .panic
+
+def Old.DBP.len (d : DBP) : Nat :=
   if d.deltas.count = 0 && d.base = 0 then 0 else d.deltas.count + 1
 
 def DBP.toBytes (d : DBP) : List Nat := leBytes 8 d.base ++ d.deltas.toBytes
